@@ -7,6 +7,8 @@ mkdir -p /work
 rm -rf "/work/$n"
 mkdir -p "/work/$n"
 git clone -q /verif "/work/$n/verif"
+# warm start: copy the build output (lake re-checks hashes, so stale entries are rebuilt)
+[ -d /verif/lean/.lake ] && cp -a /verif/lean/.lake "/work/$n/verif/lean/.lake" 2>/dev/null || true
 git -C /repo worktree prune
 git -C /repo worktree add -q --detach "/work/$n/repo" HEAD
 echo "/work/$n ready"
